@@ -9,7 +9,7 @@ from typing import Any, Iterator
 from jinja2 import nodes
 
 from .. import tplq
-from ..astutil import ERROR_CLASSES, ERROR_ONLY_HELPERS, Locals, call_name, calls_in, error_names, names_in, norm, region, short, stmt_of, terminals, where
+from ..astutil import ERROR_CLASSES, ERROR_ONLY_HELPERS, Locals, call_name, calls_in, constructs_error, error_names, names_in, norm, region, short, stmt_of, terminals, where
 from ..cfg import CFG
 from ..core import PKG, Report
 from ..jinja_interp import expr_text
@@ -21,7 +21,7 @@ LEVEL = ("structural clauses (the bytes httpx sends are not decided): wire names
          "between path template and path parameters can only end in an error; generated locals "
          "defined under guards implied by every use (truth tables); body-type table exhaustive and consistent with httpx keyword "
          "names, Content-Type from the document's own key; the model of a multipart body is flagged for to_multipart, registered, and the "
-         "flag never lowered; optional arguments guarded; header values converted to str for every non-str kind allowed in headers (what "
+         "flag never lowered; optional arguments guarded; a query parameter is stored under its wire name or spread into its fields, never both; header values converted to str for every non-str kind allowed in headers (what "
          "transform_header writes is a str on every path and is what header_params stores); the query filter drops UNSET and nothing but UNSET / None; sync/async variants equal as token "
          "streams; security, the credential header overwritten before both httpx clients are built; parameter identity is (name, location); "
          "whoever hands on a parameter's schema with a name / location hands on that parameter's own.")
@@ -261,6 +261,20 @@ def _paths(ti: Any, macro: nodes.Macro, known: Any = None, limit: int = 512) -> 
     return out
 
 
+def _macro_region(ti: Any, name: str) -> set[str]:
+    """the macro and the macros of the same template it calls (directly or through one another): where what the macro writes is written"""
+    out: set[str] = set()
+    todo = [name]
+    while todo:
+        n = todo.pop()
+        m = ti.macros.get(n)
+        if m is None or n in out:
+            continue
+        out.add(n)
+        todo += [c.node.name for c in m.find_all(nodes.Call) if isinstance(c.node, nodes.Name)]
+    return out
+
+
 def _written(ps: list[_Piece]) -> str:
     """the text of a path, every hole as one private-use character (no identifier, no punctuation)"""
     return "".join(p.text if p.kind == "t" else HOLE for p in ps)
@@ -358,12 +372,75 @@ class _Region:
             if k == "assign":
                 out.append((g, v))
             elif re.fullmatch(r"assign\[\d+\]", k):
-                i = int(k[7:-1])
-                h = self.helper(v) if isinstance(v, ast.Call) else None
-                for f, t in [(g, v)] if h is None else [(h, r) for r in self.results(h)]:
-                    if isinstance(t, ast.Tuple) and i < len(t.elts) and not any(isinstance(x, ast.Starred) for x in t.elts):
-                        out.append((f, t.elts[i]))
+                out += self.component(g, v, int(k[7:-1])) or []
         return out + self.passed(g, name)
+
+    def record_class(self, c: ast.Call) -> list[str] | None:
+        """the fields, in their order, of the class of the package the call constructs (a NamedTuple / attrs / dataclass record: positional
+        arguments fill the fields in the order they are declared); None: the call is something else"""
+        hits = [k for k in self.ix.classes.values() if k.name == call_name(c).rsplit(".", 1)[-1]]
+        if len(hits) != 1 or not hits[0].fields or "__init__" in hits[0].methods:
+            return None
+        return list(hits[0].fields)
+
+    def component(self, g: Any, e: ast.AST, sel: Any, depth: int = 4) -> list[tuple[Any, ast.AST]] | None:
+        """(function, expression) of what the component `sel` (a position, or the name of a field) of the record e can be; None when e is
+        not known to be a record.  Records: a tuple display; the construction of a record class of the package (positional arguments by
+        the order of its fields, keywords by name); a conditional of records; what a helper of the region returns; a name bound to a
+        record - by assignment, as the argument of a helper, or as the variable of a loop over a generator of the region, which is what
+        the generator yields (an error object it yields instead has no components: whoever takes it apart has told them apart before).
+        Packing values into a record in one function and taking them out in another leaves who is who unchanged."""
+        if depth <= 0:
+            return None
+        if isinstance(e, ast.NamedExpr):
+            return self.component(g, e.value, sel, depth)
+        if isinstance(e, (ast.Tuple, ast.List)):
+            if isinstance(sel, int) and sel < len(e.elts) and not any(isinstance(x, ast.Starred) for x in e.elts):
+                return [(g, e.elts[sel])]
+            return None
+        if isinstance(e, ast.IfExp):
+            arms = [a for a in (self.component(g, x, sel, depth) for x in (e.body, e.orelse)) if a is not None]
+            return [x for a in arms for x in a] if arms else None
+        if isinstance(e, ast.Call):
+            h = self.helper(e)
+            if h is not None:
+                rs = [r for r in (self.component(h, x, sel, depth - 1) for x in self.results(h)) if r is not None]
+                return [x for r in rs for x in r] if rs else None
+            fields = self.record_class(e)
+            if fields is None or any(isinstance(a, ast.Starred) for a in e.args) or any(k.arg is None for k in e.keywords):
+                return None
+            name = fields[sel] if isinstance(sel, int) and sel < len(fields) else sel if isinstance(sel, str) and sel in fields else None
+            if name is None:
+                return None
+            kw = {k.arg: k.value for k in e.keywords}
+            if name in kw:
+                return [(g, kw[name])]
+            i = fields.index(name)
+            return [(g, e.args[i])] if i < len(e.args) else None
+        if isinstance(e, ast.Name):
+            key = ("component", g.qual, e.id, sel)
+            if key in self._active:
+                return None
+            self._active.add(key)
+            try:
+                got: list[tuple[Any, ast.AST]] = []
+                found = False
+                for h, v in self.bindings(g, e.id):
+                    r = self.component(h, v, sel, depth - 1)
+                    if r is not None:
+                        found, got = True, got + r
+                for pos, it in self.loops(g, e.id):
+                    gen = self.helper(it) if pos == "" and isinstance(it, ast.Call) else None
+                    for star, v in (self.yields(gen) if gen is not None else []):
+                        if star or constructs_error(v):
+                            continue
+                        r = self.component(gen, v, sel, depth - 1)
+                        if r is not None:
+                            found, got = True, got + r
+                return got if found else None
+            finally:
+                self._active.discard(key)
+        return None
 
     def passed(self, g: Any, name: str) -> list[tuple[Any, ast.AST]]:
         """(caller, expression) of what is passed for the parameter `name`: by the region to its helper g, by g to the function defined
@@ -949,6 +1026,11 @@ def _parameter_identity(rep: Report, ix: Any) -> None:
         return False
 
     def is_name(g: Any, e: ast.AST) -> bool:
+        """the name of the parameter under consideration, or a string made from it alone (lower-cased, stripped, str(...))"""
+        if isinstance(e, ast.Call) and not e.keywords:
+            if isinstance(e.func, ast.Attribute) and e.func.attr in STR_METHODS and all(isinstance(a, ast.Constant) for a in e.args):
+                return rg.denotes(g, e.func.value, is_name)
+            return call_name(e) == "str" and len(e.args) == 1 and rg.denotes(g, e.args[0], is_name)
         return isinstance(e, ast.Attribute) and e.attr == "name" and rg.denotes(g, e.value, is_current)
 
     def is_location(g: Any, e: ast.AST) -> bool:
@@ -1004,6 +1086,48 @@ def _parameter_identity(rep: Report, ix: Any) -> None:
     def constant(e: ast.AST) -> bool:
         return isinstance(e, ast.Constant) or (isinstance(e, (ast.Tuple, ast.List, ast.Set)) and all(constant(x) for x in e.elts))
 
+    def is_constant_table(g: Any, e: ast.AST) -> bool:
+        """a module-level constant of particular names"""
+        v = g.module.variables.get(e.id) if isinstance(e, ast.Name) and e.id not in rg.lc[g.qual].defs else None
+        if isinstance(v, ast.Call) and call_name(v) in ("set", "frozenset", "tuple", "list") and len(v.args) == 1:
+            v = v.args[0]
+        return v is not None and constant(v)
+
+    parents: dict[str, dict[int, ast.AST]] = {g.qual: {id(c): n for n in ast.walk(g.node) for c in ast.iter_child_nodes(n)} for g in rg.funcs}
+
+    def decisions(g: Any, n: ast.AST, depth: int = 3) -> list[tuple[Any, ast.AST]]:
+        """(function, test) of the decisions the value of the expression n takes part in or is made under: the tests of the statements,
+        conditional expressions and comprehension filters around it; when it is kept in a local, those around the reads of the local;
+        when it is what a helper of the region returns, those around the calls of the helper"""
+        out: list[tuple[Any, ast.AST]] = []
+        up = parents[g.qual]
+        x: ast.AST | None = n
+        while x is not None and x is not g.node:
+            p = up.get(id(x))
+            if isinstance(p, (ast.If, ast.While, ast.IfExp)):
+                out.append((g, p.test))
+            elif isinstance(p, ast.comprehension):
+                out += [(g, t) for t in p.ifs]
+            elif isinstance(p, (ast.ListComp, ast.SetComp, ast.GeneratorExp, ast.DictComp)) and x not in p.generators:
+                out += [(g, t) for c in p.generators for t in c.ifs]
+            elif isinstance(p, ast.BoolOp):
+                out.append((g, p))
+            elif depth and isinstance(p, (ast.Assign, ast.AnnAssign, ast.NamedExpr)) and x is p.value:
+                ts = p.targets if isinstance(p, ast.Assign) else [p.target]
+                for t in [t for t in ts if isinstance(t, ast.Name)]:
+                    for r in ast.walk(g.node):
+                        if isinstance(r, ast.Name) and r.id == t.id and isinstance(r.ctx, ast.Load):
+                            out += decisions(g, r, depth - 1)
+            elif depth and isinstance(p, ast.Return) and g != rg.root:
+                for caller, c in rg.sites.get(g.qual, []):
+                    out += decisions(caller, c, depth - 1)
+            x = p
+        return out
+
+    def location_decides(g: Any, n: ast.AST) -> bool:
+        """the location of the parameter under consideration is read by a decision the test n belongs to"""
+        return any(is_location(h, a) for h, t in decisions(g, n) for a in ast.walk(t) if isinstance(a, ast.Attribute))
+
     # identity tests: every comparison / membership test / lookup in the region that is made with the name of the parameter under
     # consideration or with a key made from it
     n_id = 0
@@ -1028,8 +1152,6 @@ def _parameter_identity(rep: Report, ix: Any) -> None:
                 key = rg.denotes(g, idn, has_name)
                 if not key and not rg.denotes(g, idn, is_name):
                     continue
-                if constant(other):
-                    continue        # a test for one particular name, not a comparison of two parameters
                 n_id += 1
                 if key:
                     both = rg.denotes(g, idn, is_full_key)
@@ -1041,8 +1163,12 @@ def _parameter_identity(rep: Report, ix: Any) -> None:
                     flow = _sources_in(rg, g, unit, stop=everybody)
                     both = any(is_location(h, x) for h, e in flow for x in ast.walk(e) if isinstance(x, ast.Attribute)) or any(
                         isinstance(a, ast.Name) and rg.denotes(h, a, is_current) for h, e in flow for c in calls_in(e) for a in [*c.args, *[k.value for k in c.keywords]])
+                    # - or the same decision reads the location next to the name (`p.param_in == HEADER and p.name in RESERVED`, the test
+                    # nested in one on the location): names the document uses in one location are free in the others
+                    both = both or location_decides(g, n)
                     msg = ("a parameter is skipped / rejected by name alone: a path-item parameter with the same name in another location "
-                           "is lost")
+                           "is lost") if not constant(other) and not is_constant_table(g, other) else (
+                           "a parameter is singled out by its name alone: parameters of that name in every other location are treated alike")
                 rep.check(both, "R03.9", f"Endpoint.add_parameters::identity[{role_text(g, n)}]", msg, where(g, n), lhs=norm(n)[:100],
                           rhs="the test involves the name and the location of the parameter")
     rep.floor("parameter_identity_tests", n_id, 1)
@@ -1202,6 +1328,10 @@ def run(rep: Report, ctx: Any) -> str:
     rep.rule("R03.4", "optional arguments are not sent and set ones are: the query store is filtered, whenever it is built, by conditions "
                       "that drop UNSET and keep every value that is neither UNSET nor None; guarded_statement emits the statement without "
                       "its Unset test only for required properties (truth table); header stores go through guarded_statement")
+    rep.rule("R03.13", "a query parameter goes into the query once: on every path through one round of query_params (the macros of the file "
+                       "it calls inlined; destinations and statements handed to other macros read as what they say) the store `params` is "
+                       "either keyed by the parameter's wire name or the parameter is spread into it (`params.update(...)`: an object "
+                       "sent as its fields) - never both (its own key would be sent next to its fields), never neither (it would not be sent)")
     rep.rule("R03.5", "every property class that allows the header location and whose Python type is not str defines transform_header; on "
                       "every path through it transform_header writes one expression that is computed from its argument and is a str "
                       "whatever the value (str(...), an f-string, a str literal per arm, ...); on every path through header_params on which "
@@ -1242,9 +1372,10 @@ def run(rep: Report, ctx: Any) -> str:
     for (tn, mn, hole), kinds in sorted(sites.items()):
         rep.check(all(k.endswith('STR1"') for k in kinds), "R03.1", f"{tn}::{mn}::{hole}", "a wire name is not emitted inside a \"...\" literal",
                   where=f"{PKG}/templates/{tn}", lhs=sorted(kinds), rhs='STR1"')
-    macro_has = {mn for (tn, mn, hole) in sites}
+    # (the store of a location is written by its macro or by a macro of the same file that it calls)
+    macro_has = {mn for (tn, mn, hole) in sites if tn == em.name}
     for mn in ("cookie_params", "query_params"):
-        rep.check(mn in macro_has, "R03.1", f"endpoint_macros.py.jinja::{mn}::keyed-by-wire-name", "the store is not keyed by the wire name",
+        rep.check(bool(_macro_region(em, mn) & macro_has), "R03.1", f"endpoint_macros.py.jinja::{mn}::keyed-by-wire-name", "the store is not keyed by the wire name",
                   where=f"{PKG}/templates/{em.name}")
     hp = em.macros.get("header_params")
     rep.require(hp, "header_params")
@@ -1586,6 +1717,11 @@ def run(rep: Report, ctx: Any) -> str:
         return isinstance(e, ast.Attribute) and e.attr == "content"
 
     def is_document_key(g: Any, e: ast.AST) -> bool:
+        # (a key that travels in a record - a tuple, a NamedTuple / attrs object built by a helper or yielded by a generator of the region -
+        # is still the key: taken out by unpacking (see _Region.bindings), by field or by position)
+        if isinstance(e, ast.Attribute) or (isinstance(e, ast.Subscript) and isinstance(e.slice, ast.Constant) and isinstance(e.slice.value, int)):
+            got = brg.component(g, e.value, e.attr if isinstance(e, ast.Attribute) else e.slice.value)
+            return bool(got) and all(brg.denotes(h, v, is_document_key) for h, v in got)
         if not isinstance(e, ast.Name):
             return False
         for pos, it in brg.loops(g, e.id):
@@ -1720,6 +1856,36 @@ def run(rep: Report, ctx: Any) -> str:
         rep.check(_absence_value(c, v, False, False) is True, "R03.4", "query_params::set-values-kept",
                   f"the query filter `{norm(c)}` is not decided by identity with UNSET / None alone: a set argument (False, 0, \"\") can be dropped",
                   where=f"{PKG}/templates/{em.name}:{fr.line}", lhs=norm(c), rhs="true for every value that is neither UNSET nor None")
+
+    # ---- R03.13 ------------------------------------------------------------------------------------------------------------
+    # what one round of the loop of query_params does with the store, path by path (the macros of the file it calls inlined; what is
+    # handed to a macro of another file - a destination to write to, a statement to guard - is text the path writes as well)
+    STORE = "params"
+    n_q = 0
+    twice, never = [], []
+    for env, ps in _paths(em, qp):
+        seqs = [ps] + [a for h in _holes(ps) for a in h.args]
+        keyed = spread = mentioned = 0
+        for seq in seqs:
+            text = _written(seq)
+            hs = [p for p in seq if p.kind == "h"]
+            mentioned += bool(re.search(rf"(?<![\w.\"']){STORE}\b", text))
+            spread += len(re.findall(rf"(?<![\w.\"']){STORE}\.update\(", text))
+            for m in re.finditer(rf"(?<![\w.\"']){STORE}\[\s*\"{HOLE}\"\s*\]", text):
+                keyed += _flat(hs[text[:m.start()].count(HOLE)].text).endswith(".name")
+        if not mentioned:
+            continue
+        n_q += 1
+        free = {k: v for k, v in env.items() if not _coll_key(k)}
+        if keyed and spread:
+            twice.append(free)
+        elif not keyed and not spread:
+            never.append(free)
+    rep.check(n_q > 0 and not twice and not never, "R03.13", "query_params::stored-once",
+              (f"a query parameter is put into `{STORE}` under its own wire name and spread into it as well (e.g. when {twice[:1]}): its own key is "
+               "sent next to its fields" if twice else f"a query parameter is neither stored under its wire name nor spread into `{STORE}` "
+               f"(e.g. when {never[:1]}): it is never sent"), where=f"{PKG}/templates/{em.name}:{qp.lineno}",
+              lhs={"both": twice[:2], "neither": never[:2]}, rhs="exactly one of: keyed by <parameter>.name / <store>.update(...)")
 
     # ---- R03.5 -------------------------------------------------------------------------------------------------------------
     n_h = n_th = 0
